@@ -242,6 +242,22 @@ class Program:
             from .inline import normalise
             self.inliner = normalise(self)
 
+    def keeping(self, *helpers: str) -> "Program":
+        """The same sources in normal form, except that the named private helpers stay calls (for rules that summarise those
+        helpers as units while everything around them is inlined)."""
+        if self.inliner is None:
+            return self
+        key = tuple(sorted(helpers))
+        cache = self.__dict__.setdefault("_keeping", {})
+        if key not in cache:
+            root, overlays, pkg, extra = self._ctor
+            q = Program(root, overlays=overlays, pkg=pkg, extra_files=extra, inline=False)
+            from .inline import normalise
+            q.inliner = normalise(q, exclude=key)
+            q._ctor = self._ctor
+            cache[key] = q
+        return cache[key]
+
     @property
     def raw(self) -> "Program":
         """The same sources without the helper-inlining normal form (for rules that summarise a helper as a unit)."""
